@@ -110,9 +110,12 @@ def make_api(r, shape, *, add_iam=False, mixins=False, collide=False):
         # a paged and a long-running RPC (their wrappers are C07's / C08's business; here: which entry they call, what they pass)
         lreq = api.main.message("ListWidgetsRequest")
         lreq.field("parent", 1, "string").field("page_size", 2, "int32").field("page_token", 3, "string")
+        # flattened fields named like the modules the method bodies use (pagers, operation, operation_async, retries,
+        # core_exceptions): the imports must take an alias, or the keyword parameter shadows the module
+        lreq.field("pagers", 4, "string").field("operation", 5, "string").field("retries", 6, "int32")
         lresp = api.main.message("ListWidgetsResponse")
         lresp.field("widgets", 1, main_resp.fqn, repeated=True).field("next_page_token", 2, "string")
-        svc.rpc("ListWidgets", lreq.fqn, lresp.fqn)
+        svc.rpc("ListWidgets", lreq.fqn, lresp.fqn, sigs=["parent,pagers", "operation,retries"])
         if shape in ("dep", "sub"):
             # the same with the request in the other package (plain protobuf dependency / proto-plus sub-package): the pager
             # has to copy such a request too (plain protobuf: /repo commit 9678930)
@@ -122,10 +125,12 @@ def make_api(r, shape, *, add_iam=False, mixins=False, collide=False):
             fresp.field("widgets", 1, main_resp.fqn, repeated=True).field("next_page_token", 2, "string")
             svc.rpc("ListFarWidgets", freq.fqn, fresp.fqn, sigs=["parent"])
         oreq = api.main.message("BuildWidgetRequest")
-        oreq.field("parent", 1, "string")
+        oreq.field("parent", 1, "string").field("operation", 2, "string").field("operation_async", 3, "string")
+        oreq.field("retries", 4, "int32").field("core_exceptions", 5, "string", repeated=True).field("pagers", 6, "string")
         ometa = api.main.message("BuildWidgetMetadata")
         ometa.field("progress", 1, "int32")
-        svc.rpc("BuildWidget", oreq.fqn, OPERATION, lro=(main_resp.proto.name, ometa.proto.name))
+        svc.rpc("BuildWidget", oreq.fqn, OPERATION, lro=(main_resp.proto.name, ometa.proto.name),
+                sigs=["parent,operation", "operation_async,retries", "core_exceptions,pagers"])
     params = ["transport=grpc"] + (["add-iam-methods"] if add_iam else [])
     req = api.request(",".join(params))
     yaml = None
